@@ -387,6 +387,60 @@ _TOT_STRINGS = []
 _TOT_IX = None
 
 
+def reconfigured(run):
+    """A parser is its set of plug-ins, not the history that led to it: a parser that has already parsed
+    something and is then reconfigured (remove_plugin by object / by class, add_plugin, replace_plugin) must
+    parse every input like a parser freshly built with the same plug-ins."""
+    from whoosh import qparser
+    from whoosh.qparser import plugins as pl
+    schema = rich_schema()
+
+    def fresh():
+        return qparser.QueryParser("body", schema)
+
+    def by_obj(cls):
+        def f(p):
+            for x in [x for x in p.plugins if isinstance(x, cls)]:
+                p.remove_plugin(x)
+        return f
+    scenarios = [
+        ("remove_plugin(WildcardPlugin object)", by_obj(pl.WildcardPlugin), lambda p: p.remove_plugin_class(pl.WildcardPlugin)),
+        ("remove_plugin(PhrasePlugin object)", by_obj(pl.PhrasePlugin), lambda p: p.remove_plugin_class(pl.PhrasePlugin)),
+        ("remove_plugin(BoostPlugin object)", by_obj(pl.BoostPlugin), lambda p: p.remove_plugin_class(pl.BoostPlugin)),
+        ("remove_plugin_class(RangePlugin)", lambda p: p.remove_plugin_class(pl.RangePlugin), lambda p: p.remove_plugin_class(pl.RangePlugin)),
+        ("add_plugin(FuzzyTermPlugin)", lambda p: p.add_plugin(pl.FuzzyTermPlugin()), lambda p: p.add_plugin(pl.FuzzyTermPlugin())),
+        ("add_plugin(GtLtPlugin)", lambda p: p.add_plugin(pl.GtLtPlugin()), lambda p: p.add_plugin(pl.GtLtPlugin())),
+        ("replace_plugin(OperatorsPlugin(And=&&))", lambda p: p.replace_plugin(pl.OperatorsPlugin(And="&&")),
+         lambda p: p.replace_plugin(pl.OperatorsPlugin(And="&&"))),
+        ("remove_plugins([GroupPlugin object]) then add_plugin(GroupPlugin)",
+         lambda p: (by_obj(pl.GroupPlugin)(p), p.add_plugin(pl.GroupPlugin())), lambda p: None),
+    ]
+    strings = _TOT_STRINGS[::max(1, len(_TOT_STRINGS) // 700)]
+
+    def outcome(p, text):
+        try:
+            return repr(p.parse(text))
+        except Exception as ex:
+            return "raised " + type(ex).__name__
+    for name, change, build in scenarios:
+        used = fresh()
+        for warm in (u"a* AND \"a b\"^2 [a TO b]", u"title:(a OR b) c~"):
+            outcome(used, warm)
+        change(used)
+        ref = fresh()
+        build(ref)
+        bad = []
+        for text in strings:
+            a, b = outcome(used, text), outcome(ref, text)
+            if a != b:
+                bad.append({"text": text, "reconfigured": a[:200], "fresh": b[:200]})
+        run.count(len(strings))
+        if bad:
+            run.violation({"check": "c16-reconfigured", "scenario": name}, {"count": len(bad), "examples": bad[:3]})
+        else:
+            run.nontriv(("reconfigured", name))
+
+
 def _totality_worker(pname):
     """All input strings through one parser configuration (one process per configuration)."""
     from whoosh.qparser import QueryParserError
@@ -436,6 +490,7 @@ def check(run):
         totality(run, 2, 1500, 5, 1)
     else:
         totality(run, 3, 20000, 6, 2)
+    reconfigured(run)
 
 
 def replay(run, rp):
